@@ -5,6 +5,8 @@ Internal invariants of the mapper model and their preservation by every sub-func
 mapping that is being installed (between `consume` and the push onto `active` in `addNewMapping`).
 `IRel s s' evs` — what a release-only sub-operation may do: legal events tracking `pass ∪ mapped`,
 releases only, `inp`/`active`/`mapped` only shrink, `pass` grows only by hand-over from `mapped`.
+`IRelW s s' evs` — the same without "`mapped` only shrinks": keys may also move from `pass` to `mapped`
+(a consumption of pass-through keys; since the D5 fix `addPhase2` ends with one in its absorb branch).
 -/
 import TmVerif.Proofs.Emits
 
@@ -55,6 +57,46 @@ theorem IRel.trans {s s1 s2 : State} {a b : List Event} (h1 : IRel s s1 a) (h2 :
     · exact h1.passFrom k h
     · exact Or.inr (h1.mappedSub k h)
   · exact fun k h => h1.mappedSub k (h2.mappedSub k h)
+
+/-- `IRel` without `mappedSub`: keys may also move from `pass` to `mapped` (a consumption of
+pass-through keys, as the second `consume_pass_through_keys` in `add_new_mapping` does). -/
+structure IRelW (s s' : State) (evs : List Event) : Prop where
+  emits : Emits (held s) evs (held s')
+  allRel : ∀ e, e ∈ evs → e.isRelease = true
+  relHeld : ∀ k, Event.released k ∈ evs → k ∈ s.pass ∨ k ∈ s.mapped
+  inpSub : ∀ k, k ∈ s'.inp → k ∈ s.inp
+  actSub : ∀ m, m ∈ s'.active → m ∈ s.active
+  passFrom : ∀ k, k ∈ s'.pass → k ∈ s.pass ∨ k ∈ s.mapped
+  mappedFrom : ∀ k, k ∈ s'.mapped → k ∈ s.mapped ∨ k ∈ s.pass
+
+theorem IRel.toW {s s' : State} {evs : List Event} (h : IRel s s' evs) : IRelW s s' evs :=
+  ⟨h.emits, h.allRel, h.relHeld, h.inpSub, h.actSub, h.passFrom, fun k hk => Or.inl (h.mappedSub k hk)⟩
+
+theorem IRelW.refl (s : State) : IRelW s s [] := (IRel.refl s).toW
+
+theorem IRelW.trans {s s1 s2 : State} {a b : List Event} (h1 : IRelW s s1 a) (h2 : IRelW s1 s2 b) :
+    IRelW s s2 (a ++ b) := by
+  refine ⟨h1.emits.trans h2.emits, ?_, ?_, ?_, ?_, ?_, ?_⟩
+  · intro e he
+    rcases List.mem_append.mp he with h | h
+    · exact h1.allRel e h
+    · exact h2.allRel e h
+  · intro k hk
+    rcases List.mem_append.mp hk with h | h
+    · exact h1.relHeld k h
+    · rcases h2.relHeld k h with h | h
+      · exact h1.passFrom k h
+      · exact (h1.mappedFrom k h).symm
+  · exact fun k h => h1.inpSub k (h2.inpSub k h)
+  · exact fun m h => h1.actSub m (h2.actSub m h)
+  · intro k h
+    rcases h2.passFrom k h with h | h
+    · exact h1.passFrom k h
+    · exact (h1.mappedFrom k h).symm
+  · intro k h
+    rcases h2.mappedFrom k h with h | h
+    · exact h1.mappedFrom k h
+    · exact (h1.passFrom k h).symm
 
 /-- weaken `extra` -/
 theorem IInv.mono {e1 e2 : List Key} {s : State} (h : IInv e1 s) (hsub : ∀ k, k ∈ e1 → k ∈ e2) : IInv e2 s :=
@@ -513,6 +555,34 @@ theorem consume_spec {extra : List Key} (s : State) (m : Mapping) (h : IInv extr
   · intro k; simp only [List.mem_filter]; grind
   · intro k; simp only [List.mem_filter, List.mem_append]; grind
 
+/-- the consumption as a (weak) release-only relation -/
+theorem consume_relW {extra : List Key} (s : State) (m : Mapping) (h : IInv extra s) :
+    IRelW s (afterConsume s m) (consume m s.pass).2.2 := by
+  obtain ⟨_, c2, c3, c4, c5, c6⟩ := consume_spec s m h
+  refine ⟨c2, c3, fun k hk => Or.inl (c4 k hk).1, fun _ hx => hx, fun _ hx => hx, ?_, ?_⟩
+  · intro k hk; exact Or.inl ((c5 k).mp hk).1
+  · intro k hk
+    rcases (c6 k).mp hk with h1 | h1
+    · exact Or.inl h1
+    · exact Or.inr h1.1
+
+/-- consuming is a no-op when no pass-through key is mentioned by `m` -/
+theorem afterConsume_noop (s : State) (m : Mapping) (h : ∀ k, k ∈ s.pass → k ∉ m.frm ∧ k ∉ m.to) :
+    afterConsume s m = s ∧ (consume m s.pass).2.2 = [] := by
+  have h1 : s.pass.filter (fun k => !(m.frm.contains k || m.to.contains k)) = s.pass := by
+    rw [List.filter_eq_self]; intro k hk; have := h k hk; simp [this.1, this.2]
+  have h2 : s.pass.filter (fun k => m.to.contains k) = [] := by
+    rw [List.filter_eq_nil_iff]; intro k hk; have := h k hk; simp [this.2]
+  have h3 : s.pass.filter (fun k => m.frm.contains k && !m.to.contains k) = [] := by
+    rw [List.filter_eq_nil_iff]; intro k hk; have := h k hk; simp [this.1]
+  simp only [afterConsume, consume_eq, h1, h2, h3, List.append_nil, List.map_nil, and_true]
+
+/-- after a consumption no pass-through key is mentioned by `m` -/
+theorem afterConsume_pass_clear (s : State) (m : Mapping) (k : Key) (hk : k ∈ (afterConsume s m).pass) :
+    k ∈ s.pass ∧ k ∉ m.frm ∧ k ∉ m.to := by
+  simp only [afterConsume, consume_eq, List.mem_filter] at hk
+  simpa using hk
+
 /-! ### pressOne / pressAll -/
 
 theorem pressOne_spec {extra : List Key} (s : State) (k : Key) (h : IInv extra s) (hk : k ∈ extra) :
@@ -720,34 +790,39 @@ theorem addPhase2_nonaction (s : State) (k : Key) (m : Mapping) (h : isActionMap
 
 theorem addPhase2_absorb (s : State) (k : Key) (m : Mapping) (h : isActionMapping m = true)
     (h2 : shouldAbsorb s k = true) :
-    addPhase2 s k m = ((releaseAbsorbedKeys (releaseActionMappings s).1).1,
-      (releaseActionMappings s).2 ++ (releaseAbsorbedKeys (releaseActionMappings s).1).2) := by
-  simp [addPhase2, h, shouldAbsorb_ram, h2]
+    addPhase2 s k m = (afterConsume (releaseAbsorbedKeys (releaseActionMappings s).1).1 m,
+      (releaseActionMappings s).2 ++ (releaseAbsorbedKeys (releaseActionMappings s).1).2 ++
+        (consume m (releaseAbsorbedKeys (releaseActionMappings s).1).1.pass).2.2) := by
+  simp [addPhase2, h, shouldAbsorb_ram, h2, addPhase1_eq]
 
 theorem addPhase2_noabsorb (s : State) (k : Key) (m : Mapping) (h : isActionMapping m = true)
     (h2 : shouldAbsorb s k = false) :
     addPhase2 s k m = releaseActionMappings s := by
   simp [addPhase2, h, shouldAbsorb_ram, h2]
 
-theorem addPhase2_spec {extra : List Key} (s : State) (k : Key) (m : Mapping) (h : IInv extra s) :
-    IInv extra (addPhase2 s k m).1 ∧ IRel s (addPhase2 s k m).1 (addPhase2 s k m).2 ∧
+/-- (statement changed with the D5 fix: the absorb branch consumes pass-through keys a second time, so
+`extra` must contain `m.to` — it is `m.to` at the only call site — and the relation is the weak `IRelW`) -/
+theorem addPhase2_spec (s : State) (k : Key) (m : Mapping) (h : IInv m.to s) :
+    IInv m.to (addPhase2 s k m).1 ∧ IRelW s (addPhase2 s k m).1 (addPhase2 s k m).2 ∧
     (addPhase2 s k m).1.repTrig = s.repTrig ∧
     (∀ x, x ∈ s.inp → (shouldAbsorb s k = true → x ∉ s.absorbed) → x ∈ (addPhase2 s k m).1.inp) := by
   cases ha : isActionMapping m
   · rw [addPhase2_nonaction s k m ha]
-    exact ⟨h, IRel.refl s, rfl, fun x hx _ => hx⟩
+    exact ⟨h, IRelW.refl s, rfl, fun x hx _ => hx⟩
   · have h1 := releaseActionMappings_spec h
     have hf := releaseActionMappings_frame s
     cases hb : shouldAbsorb s k
     · rw [addPhase2_noabsorb s k m ha hb]
-      refine ⟨h1.1, h1.2, hf.2.2.2.2, ?_⟩
+      refine ⟨h1.1, h1.2.toW, hf.2.2.2.2, ?_⟩
       intro x hx _; rw [hf.1]; exact hx
     · rw [addPhase2_absorb s k m ha hb]
       have h2 := releaseAbsorbedKeys_spec _ h1.1
-      refine ⟨h2.1, h1.2.trans h2.2.1, ?_, ?_⟩
-      · simp only; rw [h2.2.2.2.2.1, hf.2.2.2.2]
+      have c := consume_spec (releaseAbsorbedKeys (releaseActionMappings s).1).1 m h2.1
+      refine ⟨c.1.mono (by simp), (h1.2.trans h2.2.1).toW.trans (consume_relW _ m h2.1), ?_, ?_⟩
+      · show (releaseAbsorbedKeys (releaseActionMappings s).1).1.repTrig = s.repTrig
+        rw [h2.2.2.2.2.1, hf.2.2.2.2]
       · intro x hx hna
-        simp only
+        show x ∈ (releaseAbsorbedKeys (releaseActionMappings s).1).1.inp
         rw [h2.2.2.2.2.2.1 x, hf.1, hf.2.2.1]
         exact ⟨hx, hna rfl⟩
 
